@@ -27,6 +27,8 @@ pub struct GenCfg {
     pub chain: bool,
     /// Probability (percent) that a location uses a dubious host.
     pub dubious_pct: u64,
+    /// Hand out wide child resources so that siblings often nest/overlap.
+    pub wide_children: bool,
 }
 
 impl Default for GenCfg {
@@ -35,6 +37,7 @@ impl Default for GenCfg {
             max_tals: 2, max_cas: 8, max_depth: 3, max_objs: 4,
             ta_all_pct: 40, rrdp_pct: 50, shared_repos: true, chain: false,
             dubious_pct: 0,
+            wide_children: false,
         }
     }
 }
@@ -253,7 +256,19 @@ impl<'a> Gen<'a> {
             });
             (host, module, rrdp)
         };
-        let res = self.sub_resources(&effective_pool(world, parent));
+        let mut res = self.sub_resources(&effective_pool(world, parent));
+        if self.cfg.wide_children && self.rng.chance(60, 100) {
+            // Nest inside a sibling's resources.
+            let siblings: Vec<P4> = world.cas[parent].children.iter()
+                .flat_map(|c| world.cas[*c].cert.res.v4.clone()).collect();
+            if !siblings.is_empty() {
+                let base = *self.rng.pick(&siblings);
+                let nested = self.sub_v4(base, 2, 6, 28);
+                if nested != base {
+                    res.v4 = vec![nested];
+                }
+            }
+        }
         let serial = world.serial();
         let cert = CertSpec {
             name: format!("ca{idx}.cer"),
@@ -280,7 +295,8 @@ impl<'a> Gen<'a> {
         for _ in 0..n4 {
             if pool.v4.is_empty() { break }
             let base = *self.rng.pick(&pool.v4);
-            res.v4.push(self.sub_v4(base, 2, 8, 24));
+            let (lo, hi) = if self.cfg.wide_children { (1, 4) } else { (2, 8) };
+            res.v4.push(self.sub_v4(base, lo, hi, 24));
         }
         if !pool.v6.is_empty() {
             let base = *self.rng.pick(&pool.v6);
